@@ -97,12 +97,15 @@ class Model:
             self.members[p] = {}
             return
         bl = [a for a in addrs if a in self.bl_addrs]
-        if bl and len(bl) < len(addrs) or (bl and any(a in self.known for a in addrs)):
+        if bl and any(a in self.known for a in addrs):
+            # one of its addresses may be on record already (an address update rather than a new identity): not
+            # pinned down by the statement
             self.maybe.add(p)
             for a in addrs:
                 self.known.setdefault(a, EITHER)
             return
         if bl:
+            # a new identity with a blacklisted address - whichever of its addresses that is - never becomes verified
             return
         self.members[p] = {}
         for a in addrs:
